@@ -153,6 +153,10 @@ def class_sweep(chk, rng, per_vector):
     vectors = sweep.library_vectors()
     evals = 0
     accepted = 0
+    try:
+        from cryptoparser.common.base import VectorString as vector_string
+    except ImportError:
+        vector_string = None
     for cls in sorted(vectors, key=sweep.qualname):
         name = sweep.qualname(cls)
         unit = name in FRAMING_UNITS
@@ -164,6 +168,15 @@ def class_sweep(chk, rng, per_vector):
                 for r in reframed(name, v, rng):
                     bufs += [r, r + bytes(rng.getrandbits(8) for _ in range(rng.randint(1, 4))), r + v]
             bufs += [sweep.mutate(rng, v) for _ in range(per_vector)]
+            # a length-prefixed text list cut short: the declared length says more is to come
+            if vector_string is not None and issubclass(cls, vector_string) and len(v) > 6:
+                try:
+                    _o, n0 = cls.parse_immutable(v)
+                    cls.parse_immutable(v[:n0 - 1])
+                    yield cls, 'cryptoparser.common.base.VectorString', v[:n0 - 1], 'short-body-accepted', 'a name-list declaring %d octets is accepted with %d present (%s)' % (
+                        int.from_bytes(v[:4], 'big'), n0 - 5, name)
+                except Exception:  # pylint: disable=broad-except
+                    pass
             for b in bufs:
                 evals += 1
                 for pred, detail in check_buffer(cls, name, b, rng, unit):
